@@ -11,6 +11,11 @@ T_PATHS = 'bounded-exhaustive exploration of the row transition system (all row 
 T_HIST = 'explicit-state BFS over call histories on live objects with reflection snapshots'
 
 CHECKS = {
+    'C03': ("Every document of a bounded space (all row sequences up to depth 3/4 over data, interpretation, comment, barline, null, split, join, global-comment rows for 9-24 header "
+            "configurations; all <=2 (3) edits of a backbone score; every corpus member in every column) is imported and exported in plain and extended form, and the result is "
+            "compared cell by cell with a reference exporter that works on the generator's abstract description of each cell (never on kernpy's parse).",
+            'Trusted: kv/alphabet.py abstract corpora, kv/model.py reference exporter. Leniencies (null placeholder spelling, component order) in DESIGN §2.1.',
+            T_PATHS, 'DESIGN.md §3 C03'),
     'C02': ("Lock-step refinement of kernpy's importer against the SpineModel: explicit-state BFS to closure over the merged (layout, implementation fingerprint) "
             "state graph under a column cap, every transition (data, null, clef, tandem, comment, barline, global comment, every single/double split, every legal "
             "join incl. runs of 3 and two runs in a row, every single termination, terminate-all) replayed by importing the history and comparing the whole tree "
